@@ -124,3 +124,20 @@ equivalent("c08-eq-general-rename", ["C08", "C01"], (A, """        for rule in r
                 continue
             r_.activate_with(rule_block.conjunction, disjunction)
             r_.trigger(implication)"""))
+
+# ------------------------------------------------------------------------------------------ C19
+DISJ = """            if disjunction_needed and not rule_block.disjunction:
+                errors.append(
+                    f"Rule block {name_or_index} does not have any disjunction operator "
+                    f"and is needed by {disjunction_needed} rule{'s'[:disjunction_needed ^ 1]}"
+                )
+"""
+mutant("c19-regress-nested-disjunction", "C19", (E, DISJ, "\n".join(("    " + l if l.strip() else l) for l in DISJ.split("\n"))), "C1/Engine.is_ready/disjunction")
+mutant("c19-conj-counter-uses-or", "C19", (E, 'conjunction_needed += f" {Rule.AND} " in rule.antecedent.text', 'conjunction_needed += f" {Rule.OR} " in rule.antecedent.text'), "C1/Engine.is_ready/conjunction")
+mutant("c19-implication-report-deleted", "C19", (E, "            if implication_needed and not rule_block.implication:", "            if False and implication_needed and not rule_block.implication:"), "C1/Engine.is_ready/implication")
+mutant("c19-defuzzifier-under-terms", "C19", (E, """            if not variable.defuzzifier:
+                errors.append(""", """            if not variable.terms and not variable.defuzzifier:
+                errors.append("""), "C1/Engine.is_ready/defuzzifier")
+mutant("c19-aggregation-needs-weighted", "C19", (E, "if not variable.aggregation and isinstance(variable.defuzzifier, IntegralDefuzzifier):", "if not variable.aggregation and isinstance(variable.defuzzifier, WeightedDefuzzifier):"), "C1/Engine.is_ready/aggregation")
+mutant("c19-implication-tests-conjunction", "C19", (E, "if implication_needed and not rule_block.implication:", "if implication_needed and not rule_block.conjunction:"), "C1/Engine.is_ready/implication")
+equivalent("c19-eq-flattened", "C19", (E, "            if conjunction_needed and not rule_block.conjunction:\n                errors.append(", "            missing_c = not rule_block.conjunction\n            if missing_c and conjunction_needed:\n                errors.append("))
